@@ -22,6 +22,11 @@ def run(ctx):
     ctx.do(n1, ["geometry_tools/projective.py"], scope=ctx.scope(ENTRIES))
     ctx.do(PR.rule_bm1)
     ctx.do(SH.rule_sh4)
+    ctx.do(SH.rule_sh7, only={
+        "Point.projective_coords", "Point.affine_coords",
+        "Point.in_affine_chart", "PointPair.endpoint_affine_coords",
+        "PointPair.endpoint_projective_coords", "Polygon.in_standard_chart",
+        "None.affine_coords", "None.projective_coords"})
     ctx.do(SI.rule_eig1, only={"Transformation.eigenvector", "Transformation.diagonalize"})
     ctx.do(u1, ENTRIES, min_functions=15)
     ctx.r.assume("affine maps, translations, intersections and eigenvectors "
